@@ -121,6 +121,30 @@ def item_put_fidelity(ctx, n):
         srv.mkcol("/u/")
         srv.mkcalendar("/u/c/")
         srv.mkaddressbook("/u/a/")
+        # objects that pass the sanitiser's structural checks but have no computable time range or odd value types: a refusal
+        # must leave nothing behind (the time range is computed when the cache entry is written)
+        odd = [("no-dtstart", "BEGIN:VEVENT\r\nUID:odd0\r\nDTSTAMP:20130101T000000Z\r\nSUMMARY:o\r\nEND:VEVENT\r\n"),
+               ("datetime-start-date-end", "BEGIN:VEVENT\r\nUID:odd1\r\nDTSTAMP:20130101T000000Z\r\nDTSTART:20130901T180000Z\r\n"
+                                           "DTEND;VALUE=DATE:20130902\r\nSUMMARY:o\r\nEND:VEVENT\r\n"),
+               ("todo-due-before-start", "BEGIN:VTODO\r\nUID:odd2\r\nDTSTAMP:20130101T000000Z\r\nDTSTART:20130901T180000Z\r\n"
+                                         "DUE;VALUE=DATE:20130801\r\nSUMMARY:o\r\nEND:VTODO\r\n"),
+               ("bad-rrule", "BEGIN:VEVENT\r\nUID:odd3\r\nDTSTAMP:20130101T000000Z\r\nDTSTART:20130901T180000Z\r\nRRULE:FREQ=NEVER\r\n"
+                             "SUMMARY:o\r\nEND:VEVENT\r\n"),
+               ("journal-no-dtstart", "BEGIN:VJOURNAL\r\nUID:odd4\r\nDTSTAMP:20130101T000000Z\r\nSUMMARY:o\r\nEND:VJOURNAL\r\n")]
+        for oi, (what, comp) in enumerate(odd):
+            body = "BEGIN:VCALENDAR\r\nPRODID:-//v//EN\r\nVERSION:2.0\r\n" + comp + "END:VCALENDAR\r\n"
+            before = impl.tree_dump(srv.folder, skip_cache=True)
+            st, _, _ = srv.put("/u/c/odd%d.ics" % oi, body, login="u:")
+            ctx.case(("itemput-odd", what), nontrivial=True)
+            ctx.count("odd-item-put:%s" % st)
+            if st >= 400 and impl.tree_dump(srv.folder, skip_cache=True) != before:
+                ctx.violation("item PUT (%s) answered %s but the store changed" % (what, st), dict(path="/u/c/odd%d.ics" % oi, body=body))
+                return
+            st2, _ = srv.propfind("/u/c/", depth="1", props=("D:getetag",), login="u:")
+            if st2 != 207:
+                ctx.violation("after the item PUT (%s, answered %s) the collection can no longer be listed (%s)" % (what, st, st2),
+                              dict(path="/u/c/odd%d.ics" % oi, body=body))
+                return
         forced = ["same", "none", "other", "none-first"]      # every multi-component shape once, on fresh names, first
         for i in range(n):
             card = rng.random() < 0.3
